@@ -278,10 +278,11 @@ class Listener(plumpy.ProcessListener):
         may issue a request from it, like an overridden on_exit_running / on_entering that calls self.kill()"""
         n = self.counts[name] = self.counts.get(name, 0) + 1
         op = self.plan.get((name, n))
-        if op is not None and self.run is not None and getattr(self.run.p, '_stepping', True):
-            # only during a step's closing transition: a control call from inside a transition that was itself started by a
-            # control call outside a step is a re-entrant transition, which the state machine documents as unsupported
-            # ("Cannot call transition_to when already transitioning state")
+        if op is not None and self.run is not None and self.run.in_stepper:
+            # only during a step's closing transition, i.e. from inside the stepping task's own callback (the only transitions
+            # made there): a control call from inside a transition that was itself started by a control call outside a step is
+            # a re-entrant transition, which the state machine documents as unsupported ("Cannot call transition_to when
+            # already transitioning state"). (Decided by the harness itself, not by reading the private `_stepping`.)
             self.run.term_trans = bool(state is not None and state.is_terminal())
             try:
                 self.run.do(op, from_listener=True)
@@ -329,6 +330,7 @@ class Run:
         self.lis = Listener(self, plan)
         p.add_process_listener(self.lis)
         self.term_trans = False          # a planned request is being issued from inside the transition into a terminal state
+        self.in_stepper = False          # the callback that is running is the stepping task's
         self.term_kills = []
         if plan and any(k[0] in ('exi', 'ent') for k in plan):
             p.add_state_event_callback(StateEventHook.EXITING_STATE, lambda sm, h, st: self.lis.hook_hit('exi', st))
@@ -508,7 +510,11 @@ class Run:
                 handle = frame.f_locals.get('self') if frame is not None else None
                 flag = next((fl for h, fl in self.cb_handles if h is handle), None)
                 name = f'usercb {flag}' if flag else None
-            self.loop.step_one()
+            self.in_stepper = name == 'stepper'
+            try:
+                self.loop.step_one()
+            finally:
+                self.in_stepper = False
             if name is not None:
                 self.ops.append('tick ' + name)
                 self.observe('none')
